@@ -407,10 +407,20 @@ func (d *Def) getChainMethodReturnType(
 	evaluatedT base.T,
 ) base.T {
 
+	// an identifier may resolve to another identifier and so on; the chain can be a cycle
+	// (@a, @b = @b, @a), so every identifier is followed once
+	visited := map[string]bool{}
+
 	for {
 		if !evaluatedT.IsIdentifierType() {
 			break
 		}
+
+		if visited[evaluatedT.ToString()] {
+			break
+		}
+
+		visited[evaluatedT.ToString()] = true
 
 		e.Eval(p, ctx, &evaluatedT)
 
